@@ -99,7 +99,7 @@ class SymCase:
             self.p.assume(v >= lo)
         if hi is not None:
             self.p.assume(v <= hi)
-        self.inputs[name] = ("int", v)
+        self.inputs[name] = ("int", v, lo, hi)
         return SInt(v)
 
     def real(self, name, lo=None, hi=None, kind="float"):
@@ -108,7 +108,7 @@ class SymCase:
             self.p.assume(v >= sym.zreal(lo))
         if hi is not None:
             self.p.assume(v <= sym.zreal(hi))
-        self.inputs[name] = ("real", v, kind)
+        self.inputs[name] = ("real", v, kind, lo, hi)
         return SNum(v, kind)
 
     def bool(self, name):
@@ -684,6 +684,7 @@ class Verifier:
             res.solver_time += vc.time
         res.vcs = cr.vcs
         # counter-models -> native replay
+        searched = {}
         for vc in cr.vcs:
             if vc.status != "refuted":
                 continue
@@ -699,7 +700,7 @@ class Verifier:
                 extra = concretizable(inputs)
                 if extra:
                     s2 = z3.Solver()
-                    s2.set("timeout", 10000)
+                    s2.set("timeout", 3000)
                     for a in vc.assumptions:
                         s2.add(a)
                     s2.add(z3.Not(vc.goal))
@@ -707,6 +708,10 @@ class Verifier:
                     if s2.check() == z3.sat:
                         vc.model = s2.model()
                 rep = self._replay(contract, vc, inputs)
+            if rep is None and inputs is not None and not any(r_["obligation"] == vc.name for r_ in res.replays) \
+                    and searched.get(vc.name, 0) < 2:
+                searched[vc.name] = searched.get(vc.name, 0) + 1
+                rep = self._native_search(contract, vc, inputs, budget_s=2.0)
             if rep is not None:
                 res.replays.append(rep)
             else:
@@ -732,6 +737,97 @@ class Verifier:
             return {"obligation": vc.name, "case": vc.case, "valuation": _jsonable(val),
                     "failed_checks": failed, "exception": c.exception,
                     "results": [_short(r) for r in c.results]}
+        return None
+
+    def _native_search(self, contract, vc, inputs, budget_s=4.0, trials=6000):
+        """The solver refuted an obligation but its model is not a native witness (typically: the
+        model point lives in the slack of the float error model).  Look for a native witness of the
+        SAME obligation by running the contract on valuations drawn from the declared input domains
+        (boundary-biased, and one-input mutations of the model point).  A hit is a genuine failing
+        input of the real code; no hit leaves the obligation 'refuted without native witness'."""
+        import random
+        rng = random.Random(int(os.environ.get("VERIF_SEED", "0")) * 7919 + len(vc.name))
+        try:
+            base = valuation_from_model(vc.model, inputs) if vc.model is not None else None
+        except Exception:
+            base = None
+
+        def draw(d):
+            kind = d[0]
+            if kind == "digits":
+                lo, hi = d[1], d[2]
+                n = rng.randint(lo, hi if hi is not None else lo + 7)
+                mode = rng.randrange(6)
+                if n == 0:
+                    return ""
+                if mode == 0:
+                    return "9" * n
+                if mode == 1:
+                    return "0" * (n - 1) + "1"
+                if mode == 2:
+                    return rng.choice("123456789") + "0" * (n - 1)
+                if mode == 3:
+                    return ("0" * n + str(rng.randint(0, 60)))[-n:]
+                return "".join(rng.choice("0123456789") for _ in range(n))
+            if kind == "int":
+                lo, hi = (d[2], d[3]) if len(d) > 3 else (None, None)
+                a = lo if lo is not None else -(10 ** rng.randint(1, 12))
+                b = hi if hi is not None else 10 ** rng.randint(1, 12)
+                cands = [a, b, min(b, a + 1), max(a, b - 1), rng.randint(a, b)]
+                if a <= 0 <= b:
+                    cands += [0, min(b, 1), max(a, -1)]
+                span = b - a
+                if span > 1000:
+                    cands += [a + rng.randint(0, 10 ** rng.randint(1, len(str(span)) - 1)) for _ in range(4)]
+                return rng.choice(cands)
+            if kind == "real":
+                lo, hi = (d[3], d[4]) if len(d) > 4 else (None, None)
+                a = float(lo) if lo is not None else -1e6
+                b = float(hi) if hi is not None else 1e6
+                m = rng.randrange(4)
+                x = a + (b - a) * rng.random() if m else rng.choice([a, b, (a + b) / 2])
+                if m == 2:
+                    x = round(x, rng.randint(0, 3))
+                if m == 3:
+                    x = float(int(x)) + rng.choice([0.0, 0.5, 1 / 3, 0.1, 0.999999])
+                x = min(max(x, a), b)
+                return x if d[2] == "float" else Fraction(x).limit_denominator(10 ** 6)
+            if kind == "bool":
+                return rng.random() < 0.5
+            if kind == "pick":
+                return d[1]
+            if kind == "enum":
+                return rng.randrange(len(list(d[2])))
+            if kind == "astr":
+                pool = d[2] or []
+                if not pool:
+                    raise Unconstructible("no pool")
+                return rng.choice(pool)
+            raise Unconstructible(kind)
+
+        t0 = time.time()
+        names = list(inputs)
+        for k in range(trials):
+            if time.time() - t0 > budget_s:
+                break
+            try:
+                if base is not None and k % 2 == 0 and names:
+                    val = dict(base)
+                    for nm in rng.sample(names, min(len(names), rng.randint(1, 2))):
+                        val[nm] = draw(inputs[nm])
+                else:
+                    val = {nm: draw(inputs[nm]) for nm in names}
+                c = run_concrete(contract, val)
+            except Unconstructible:
+                continue
+            except Exception:
+                continue
+            failed = [n for n, ok in c.checks if not ok]
+            if vc.name in failed or (vc.name == "no_exception" and c.exception):
+                return {"obligation": vc.name, "case": vc.case, "valuation": _jsonable(val),
+                        "failed_checks": failed, "exception": c.exception,
+                        "results": [_short(r) for r in c.results],
+                        "found_by": f"native search over the contract's input domains after the solver refuted the obligation (trial {k})"}
         return None
 
     def _crosscheck(self, contract, o, res):
